@@ -306,28 +306,24 @@ def run_batch(res, backend, specs, nrand, ncyc, seed_tag, label, cross=False, un
             fam = (preps[t["owner"]].get("meta") or {}).get("family", "?")
             wf[fam] = wf.get(fam, 0) + _weight(t)
         res.note("interpreter_work_units_by_family", wf)
+    # second opinion for designs with signed (integer) variables: the same run with signedness ignored.  Both
+    # are validated in one batch (the first one stops at its first mismatch); the second verdict is used
+    # only if the first one fails.
+    twins = []
+    for i, t in enumerate(traces):
+        if t["mode"] == "run" and has_signed(t["d"]) and not t["d"]["uns"]:
+            t2 = dict(t)
+            t2["d"] = dict(t["d"], uns=True, stop=False)
+            twins.append((i, t2))
     t0 = time.time()
-    runs, vi = validate(traces)
+    runs, vi_all = validate(traces + [t2 for (_i, t2) in twins])
     res.note("wall_%s_tlc_s" % label, round(time.time() - t0, 1))
-    B.vi = vi
+    vi = B.vi = vi_all[:len(traces)]
     for r in runs:
         res.add_tlc(r)
-    # second opinion for designs with signed (integer) variables: signedness ignored
-    retry = [i for i, (t, (v, info)) in enumerate(zip(traces, vi))
-             if t["mode"] == "run" and v[0] != "ok" and has_signed(t["d"]) and not t["d"]["uns"]]
-    if retry:
-        rt = []
-        for i in retry:
-            t = dict(traces[i])
-            t["d"] = dict(t["d"], uns=True, stop=False)
-            rt.append(t)
-        t0 = time.time()
-        runs2, vi2 = validate(rt)
-        res.note("wall_%s_tlc_unsigned_rerun_s" % label, round(time.time() - t0, 1))
-        for r in runs2:
-            res.add_tlc(r)
-        for i, (v, info) in zip(retry, vi2):
-            B.lenient[i] = (v, info)
+    for (i, _t2), v2 in zip(twins, vi_all[len(traces):]):
+        if vi[i][0][0] != "ok":
+            B.lenient[i] = v2
     nprog, nsteps, ndis = 0, 0, 0
     failed_design = set()
     vec_fail = []
